@@ -25,6 +25,7 @@ type LoopSpec struct {
 	Fingerprint string
 	Invariants  []Clause
 	Decreases   []Clause
+	Steps       []Clause // step <expr>: relation between the head (prev(...)) and the end of every iteration
 }
 
 type Contract struct {
@@ -131,7 +132,7 @@ type Specs struct {
 var headerRe = regexp.MustCompile(`^func\s*(\(\s*(\w+)?\s*(\*?)\s*(\w+)\s*\))?\s*(\w+)\s*$`)
 
 var clauseKw = map[string]bool{"property": true, "opts": true, "requires": true, "ensures": true, "modifies": true,
-	"loop": true, "invariant": true, "inline": true, "implements": true, "counts": true, "records": true, "at_call": true, "let": true, "uses": true, "params": true, "decreases": true}
+	"loop": true, "invariant": true, "step": true, "inline": true, "implements": true, "counts": true, "records": true, "at_call": true, "let": true, "uses": true, "params": true, "decreases": true}
 var topKw = map[string]bool{"spec": true, "ghost": true, "lemma": true, "axiom": true, "func": true, "closure": true,
 	"interface": true, "extern": true, "directive": true, "fnvalue": true, "guards": true}
 
@@ -469,6 +470,15 @@ func loadContractFile(path, pkgPath string, resolveQual func(q string) string, s
 				return err
 			}
 			curLoop.Invariants = append(curLoop.Invariants, cl)
+		case "step":
+			if curLoop == nil {
+				return fail(l, "step outside a loop")
+			}
+			cl, err := mkClause(l, rest)
+			if err != nil {
+				return err
+			}
+			curLoop.Steps = append(curLoop.Steps, cl)
 		case "decreases":
 			if curLoop == nil {
 				return fail(l, "decreases outside a loop")
